@@ -223,6 +223,16 @@ class MovingClock(_Clock):
         self.armed = False
 
 
+# A controllable wall clock: sismic.clock.clock.time is replaced by fake_wall in runs whose SimulatedClock is start()ed
+# (real-time mode), so elapsed real time is exact and reproducible.  Each Run owns its wall value and publishes it here
+# before every call into the code under test.
+WALL = [1000]
+
+
+def fake_wall():
+    return WALL[0]
+
+
 class Device:
     """An object of the environment (a device handle): it can be copied, but neither deep-copied nor pickled."""
 
